@@ -249,3 +249,27 @@ Definition cc_row_removeall_legacy : str * str :=
 
 Definition cc_locktab_legacy : list (str * str) :=
   map (fun kv => if beqb (fst kv) (fst cc_row_removeall_legacy) then cc_row_removeall_legacy else kv) cc_locktab_b.
+
+(* ---- which functions release a lock by a plain (not deferred) unlock: a panic between the lock and
+   that unlock (a nil dereference is no token of the table) would leave the lock held ---- *)
+Fixpoint has_plain_rel (fuel : nat) (l : cc_lk) (code : list lt) : bool :=
+  match fuel with
+  | O => false
+  | S k =>
+    existsb (fun x => match x with
+                      | LTok t => match classify t with TRel l' => cc_lk_eqb l l' | _ => false end
+                      | LBlk _ body => has_plain_rel k l body
+                      end) code
+  end.
+
+Definition cc_tab_plain_unlock (l : cc_lk) (tab : list (str * str)) : list str :=
+  map fst (filter (fun kv => has_plain_rel 50 l (parse_row (snd kv))) tab).
+
+(* register/unRegisterWithParent as they were before commit 2d6ed35 *)
+Definition cc_locktab_before_2d6ed35 : list (str * str) :=
+  map (fun kv =>
+         if beqb (fst kv) (cc_bytes "MemMapFs.registerWithParent"%string)
+         then (fst kv, cc_bytes "if{ ret } call:findParent if{ call:Name call:lockfreeMkdir if{ ret } if{ ret } } parent.Lock parent.Unlock"%string)
+         else if beqb (fst kv) (cc_bytes "MemMapFs.unRegisterWithParent"%string)
+         then (fst kv, cc_bytes "if{ ret } call:findParent if{ call:Name panic } parent.Lock parent.Unlock ret"%string)
+         else kv) cc_locktab_b.
